@@ -138,9 +138,10 @@ def gen_mux(rng, tier, long_run=False):
         na = 0 if rng.random() < 0.1 else (rng.randrange(1, 12 if tier == 'quick' else 50) if not long_run else rng.randrange(100, 400))
         first_v_pts = vcalls[0]['pts']['n']
         ta = first_v_pts + rng.choice([0, 0, 135000, rng.randrange(0, 50000)])
+        astep_choice = rng.choice([None, None, 6269, 6271, 3135])   # constant non-integral tick cadences (44.1 kHz-like)
         for j in range(na):
             acalls.append({'op': 'wa', 'pts': fin(ta), 'data': audio_frame(rng, ac, rng.randrange(1, maxsz))})
-            ta += rng.choice([0, 5760, 6270, rng.randrange(0, 20000)])
+            ta += astep_choice if astep_choice is not None else rng.choice([0, 5760, 6270, 6269, rng.randrange(0, 20000)])
     # random interleaving, video first
     calls = [vcalls[0]]
     vi, ai = 1, 0
@@ -938,7 +939,7 @@ def gen_mux_big(rng, tier):
     na = rng.randrange(35, 90 if tier == 'quick' else 300)
     vstep = rng.choice([9000, 9000, 9009])
     vt = [k * vstep for k in range(nv)]
-    astep = rng.choice([vstep, vstep // 2, 6000, 2 * vstep // 3])
+    astep = rng.choice([vstep, vstep // 2, 6000, 2 * vstep // 3, 6269, 6271])
     at = [min(k * astep, vt[-1] + vstep) for k in range(na)]
     if rng.random() < 0.5:
         at = sorted(rng.choice(vt) for _ in range(na))        # audio exactly on video timestamps
